@@ -1153,6 +1153,10 @@ func (s *Server) publishRetainedToClient(cl *Client, sub packets.Subscription, e
 	}
 
 	sub.FwdRetainedFlag = true
+	if sub.Identifier > 0 && len(sub.Identifiers) == 0 {
+		sub.Identifiers = map[string]int{sub.Filter: sub.Identifier} // [MQTT-3.3.4-3] retained messages carry the subscription identifier too
+	}
+
 	for _, pkv := range s.Topics.Messages(sub.Filter) { // [MQTT-3.8.4-4]
 		_, err := s.publishToClient(cl, sub, pkv)
 		if err != nil {
